@@ -167,3 +167,132 @@ pub fn gen(args: &Args) {
         std::process::exit(0);
     }
 }
+
+
+// ------------------------------------------------------------------------------------------
+// spec -> impl: replay TLC-generated schedules through the hook points
+
+struct Controller {
+    sched: Vec<(String, i64)>,
+    pos: Mutex<usize>,
+    cv: std::sync::Condvar,
+    starts: Vec<i64>,
+    stuck: std::sync::atomic::AtomicBool,
+    events: Mutex<Vec<(String, &'static str, i64, i64)>>,
+}
+
+impl Controller {
+    fn label(&self, name: &'static str, a: i64) -> (String, i64) {
+        let idx = || self.starts.iter().position(|s| *s == a).map(|i| i as i64 + 1).unwrap_or(-1);
+        match name {
+            "decide_seq" | "decide_par" => ("decide".to_string(), 0),
+            "spawn_worker" | "w_start" | "w_send" | "recv_ok" => (name.to_string(), idx()),
+            other => (other.to_string(), 0),
+        }
+    }
+}
+
+impl Hook for Controller {
+    fn before(&self, name: &'static str, a: i64, _b: i64) {
+        use std::sync::atomic::Ordering;
+        let me = self.label(name, a);
+        let mut pos = self.pos.lock().unwrap();
+        let deadline = std::time::Instant::now() + Duration::from_millis(1500);
+        loop {
+            if self.stuck.load(Ordering::SeqCst) {
+                return;
+            }
+            if *pos < self.sched.len() && self.sched[*pos] == me {
+                return;
+            }
+            let now = std::time::Instant::now();
+            if now >= deadline {
+                self.stuck.store(true, Ordering::SeqCst);
+                self.cv.notify_all();
+                return;
+            }
+            let (g, _) = self.cv.wait_timeout(pos, deadline - now).unwrap();
+            pos = g;
+        }
+    }
+    fn record(&self, name: &'static str, a: i64, b: i64) {
+        let th = format!("{:?}", std::thread::current().id());
+        self.events.lock().unwrap().push((th, name, a, b));
+        *self.pos.lock().unwrap() += 1;
+        self.cv.notify_all();
+    }
+}
+
+pub fn replay(args: &Args) {
+    let seed = args.num("seed", 1) as u64;
+    let mut r = Rng::new(seed ^ 0x5C15);
+    let scheds: Vec<(i64, usize, usize, Vec<(String, i64)>)> =
+        serde_json::from_str(&std::fs::read_to_string(args.str("sched", "sched.json")).unwrap()).unwrap();
+    let mut w = TraceWriter::create(&args.str("out", "c15s.ndjson"));
+    let (mut followed, mut unrealised, mut hangs) = (0, 0, 0);
+    for (run, (days, workers, thr, sched)) in scheds.into_iter().enumerate() {
+        let start = date_of_dn(r.range(dn_of(ymd(1700, 1, 1)), dn_of(ymd(2300, 1, 1))));
+        let end = start + chrono::Duration::days(days - 1);
+        let site = Site { lat: r.range(-400_000, 400_000), lon: 0, el: 0, gmt: 0 };
+        let p = P::of_method(r.range(1, 6) as usize);
+        let params = p.params();
+        let loc = site.location();
+        let dr = DateRange::from(start..=end);
+        let s0 = start.num_days_from_ce() as i64;
+        let starts: Vec<i64> = dr.partition(workers).iter().map(|b| b.start_date().num_days_from_ce() as i64).collect();
+        // the schedule's logged actions, without the final "ret" (the public call's return)
+        let want: Vec<(String, i64)> = sched.iter().filter(|(n, _)| n != "ret").cloned().collect();
+        let ctl = Arc::new(Controller {
+            sched: want.clone(),
+            pos: Mutex::new(0),
+            cv: std::sync::Condvar::new(),
+            starts,
+            stuck: std::sync::atomic::AtomicBool::new(false),
+            events: Mutex::new(Vec::new()),
+        });
+        w.emit(json!({"ev": "reset", "run": run, "n": days, "p": workers, "t": thr, "s0": s0, "replay": true}));
+        verif_hooks::set_parallelism(workers);
+        verif_hooks::set_hook(Some(ctl.clone()));
+        let (p2, dr2) = (params.clone(), dr.clone());
+        let g = guarded(Duration::from_secs(25), move || prayer_times_dt_rng_block(&p2, loc, &dr2, thr));
+        verif_hooks::set_hook(None);
+        let evs: Vec<_> = ctl.events.lock().unwrap().clone();
+        let got: Vec<(String, i64)> = evs.iter().map(|(_, n, a, _)| ctl.label(n, *a)).collect();
+        let ok = got == want && !ctl.stuck.load(std::sync::atomic::Ordering::SeqCst);
+        if ok {
+            followed += 1;
+        } else {
+            unrealised += 1;
+        }
+        for (th, name, a, b) in evs.iter() {
+            w.emit(json!({"ev": name, "a": a, "b": b, "th": th, "run": run}));
+        }
+        match g {
+            Guarded::Ret(m) => {
+                let seq = prayer_times_dt_rng(&params, loc, &dr);
+                let n = m.len() as i64;
+                let first = m.keys().next().map(|d| d.num_days_from_ce() as i64).unwrap_or(0);
+                let last = m.keys().next_back().map(|d| d.num_days_from_ce() as i64).unwrap_or(0);
+                let contig = n == 0 || last - first + 1 == n;
+                w.emit(json!({"ev": "ret", "out": "ret", "n": n, "first": first, "last": last,
+                    "contig": contig, "equal": m == seq, "run": run, "followed": ok}));
+            }
+            Guarded::Panic(msg) => w.emit(json!({"ev": "ret", "out": "panic", "n": 0, "first": 0, "last": 0,
+                "contig": false, "equal": false, "run": run, "msg": msg, "followed": ok})),
+            Guarded::Hang => {
+                hangs += 1;
+                w.emit(json!({"ev": "ret", "out": "hang", "n": 0, "first": 0, "last": 0,
+                    "contig": false, "equal": false, "run": run, "followed": ok}));
+                if hangs >= 2 {
+                    break;
+                }
+            }
+        }
+    }
+    verif_hooks::set_parallelism(0);
+    let n = w.finish();
+    println!("{}", json!({"events": n, "followed": followed, "unrealised": unrealised, "hangs": hangs}));
+    if hangs > 0 {
+        std::process::exit(0);
+    }
+}
